@@ -8,6 +8,82 @@ import Pulsar.Proofs.ReflectMsg
 namespace Pulsar.Rapidproto
 open Pulsar
 
+/-! ### `Val.beq` is equality -/
+
+mutual
+theorem rp_val_beq_refl : ∀ a : Val, Val.beq a a = true
+  | .bits n => by simp [Val.beq]
+  | .blob f a => by simp [Val.beq]
+  | .none => by simp [Val.beq]
+  | .msg s u => by simp [Val.beq, rp_val_beqList_refl s]
+  | .list f a => by simp [Val.beq, rp_val_beqList_refl a]
+  | .map f a => by simp [Val.beq, rp_val_beqList_refl a]
+  | .entry k v => by simp [Val.beq, rp_val_beq_refl k, rp_val_beq_refl v]
+  | .one a => by simp [Val.beq, rp_val_beq_refl a]
+  | .oneNil => by simp [Val.beq]
+theorem rp_val_beqList_refl : ∀ l : List Val, Val.beqList l l = true
+  | [] => by simp [Val.beqList]
+  | a :: as => by simp [Val.beqList, rp_val_beq_refl a, rp_val_beqList_refl as]
+end
+
+mutual
+theorem rp_val_eq_of_beq : ∀ a b : Val, Val.beq a b = true → a = b
+  | .bits n, b => by cases b <;> simp [Val.beq]
+  | .blob f a, b => by cases b <;> simp [Val.beq]
+  | .none, b => by cases b <;> simp [Val.beq]
+  | .msg s u, b => by
+    cases b <;> simp [Val.beq]
+    intro h1 h2; exact ⟨rp_val_eq_of_beqList s _ h1, h2⟩
+  | .list f a, b => by
+    cases b <;> simp [Val.beq]
+    intro h1 h2; exact ⟨h1, rp_val_eq_of_beqList a _ h2⟩
+  | .map f a, b => by
+    cases b <;> simp [Val.beq]
+    intro h1 h2; exact ⟨h1, rp_val_eq_of_beqList a _ h2⟩
+  | .entry k v, b => by
+    cases b <;> simp [Val.beq]
+    intro h1 h2; exact ⟨rp_val_eq_of_beq k _ h1, rp_val_eq_of_beq v _ h2⟩
+  | .one a, b => by
+    cases b <;> simp [Val.beq]
+    intro h1; exact rp_val_eq_of_beq a _ h1
+  | .oneNil, b => by cases b <;> simp [Val.beq]
+theorem rp_val_eq_of_beqList : ∀ l m : List Val, Val.beqList l m = true → l = m
+  | [], m => by cases m <;> simp [Val.beqList]
+  | a :: as, m => by
+    cases m <;> simp [Val.beqList]
+    intro h1 h2; exact ⟨rp_val_eq_of_beq a _ h1, rp_val_eq_of_beqList as _ h2⟩
+end
+
+theorem rp_val_beq_iff (a b : Val) : Val.beq a b = true ↔ a = b :=
+  ⟨rp_val_eq_of_beq a b, fun h => h ▸ rp_val_beq_refl a⟩
+
+/-- `mapVal` read as a proposition: the scalar IS the mapper's value -/
+theorem rp_mapVal_iff (o : GenOpts) (k : Kind) (v : Val) :
+    mapVal o k v = true ↔ ∀ w, o.mapper k = some w → v = w := by
+  unfold mapVal
+  cases h : o.mapper k with
+  | none => simp
+  | some w => simp [rp_val_beq_iff]
+
+/-! ### `genScalar` with and without a mapper -/
+
+/-- a mapped kind: the mapper's value, the draws untouched, nothing consumed -/
+theorem rp_genScalar_mapped {o : GenOpts} {k : Kind} {w : Val} (h : o.mapper k = some w) (E : List Int)
+    (ds : List Draw) : genScalar o E k ds = .ok w ds [] := by
+  simp [genScalar, h]
+
+/-- no mapper answers: the draw of the kind's generator -/
+theorem rp_genScalar_unmapped {o : GenOpts} {k : Kind} (h : o.mapper k = none) (E : List Int)
+    (ds : List Draw) : genScalar o E k ds = (draw (scalarGen E k) ds).map (scalarVal E k) := by
+  simp [genScalar, h]
+
+/-- no `FieldMaps` and the options with no `FieldMaps` satisfy `MapperOK` -/
+theorem rp_mapperOK_none (E : List Int) (o : GenOpts) (h : o.mapper = fun _ => none) : MapperOK E o :=
+  ⟨fun k w hk => by simp [h] at hk, fun w hk => by simp [h] at hk, fun w hk => by simp [h] at hk⟩
+
+theorem rp_mapperTyped_none (o : GenOpts) (h : o.mapper = fun _ => none) : MapperTyped o :=
+  fun k w hk => by simp [h] at hk
+
 /-! ### postconditions -/
 
 /-- every successful outcome satisfies `Q result trace` -/
@@ -71,12 +147,23 @@ theorem rp_post_draw (g : Gen) (ds : List Draw) :
       exact ⟨rfl, by assumption⟩
     · cases h
 
-/-- all consumed draws are in the range of their generators -/
-def InR (tr : List Ev) : Prop := ∀ e ∈ tr, e.inRange = true
+/-- every consumed draw satisfies `p` (the generic lemmas are stated for an arbitrary `p`; `fun _ => true`
+    gives statements about ALL draw sequences) -/
+def InRP (p : Ev → Bool) (tr : List Ev) : Prop := ∀ e ∈ tr, p e = true
 
-theorem InR.left {a b : List Ev} (h : InR (a ++ b)) : InR a := fun e he => h e (List.mem_append_left _ he)
-theorem InR.right {a b : List Ev} (h : InR (a ++ b)) : InR b := fun e he => h e (List.mem_append_right _ he)
-theorem InR.nil : InR [] := fun _ h => by cases h
+theorem InRP.left {p : Ev → Bool} {a b : List Ev} (h : InRP p (a ++ b)) : InRP p a :=
+  fun e he => h e (List.mem_append_left _ he)
+theorem InRP.right {p : Ev → Bool} {a b : List Ev} (h : InRP p (a ++ b)) : InRP p b :=
+  fun e he => h e (List.mem_append_right _ he)
+theorem InRP.nil {p : Ev → Bool} : InRP p [] := fun _ h => by cases h
+theorem InRP.all (tr : List Ev) : InRP (fun _ => true) tr := fun _ _ => rfl
+
+/-- all consumed draws are in the range of their generators -/
+abbrev InR (tr : List Ev) : Prop := InRP Ev.inRange tr
+
+theorem InR.left {a b : List Ev} (h : InR (a ++ b)) : InR a := InRP.left h
+theorem InR.right {a b : List Ev} (h : InR (a ++ b)) : InR b := InRP.right h
+theorem InR.nil : InR [] := InRP.nil
 
 /-! ### totality: only benign `stuck`s, draws consumed left to right -/
 
@@ -122,15 +209,19 @@ theorem rp_fine_draw (g : Gen) (ds : List Draw) : Fine (draw g ds) ds := by
     · simp [Fine]
     · simp [Fine, Benign]
 
-theorem rp_fine_genScalar (E : List Int) (k : Kind) (ds : List Draw) : Fine (genScalar E k ds) ds :=
-  rp_fine_map (rp_fine_draw _ _)
+theorem rp_fine_genScalar (o : GenOpts) (E : List Int) (k : Kind) (ds : List Draw) :
+    Fine (genScalar o E k ds) ds := by
+  unfold genScalar
+  split
+  · exact rp_fine_ok _ _
+  · exact rp_fine_map (rp_fine_draw _ _)
 
-theorem rp_fine_listScalars (E : List Int) (k : Kind) : ∀ (n : Nat) (es : List Val) (ds : List Draw),
-    Fine (listScalars E k n es ds) ds
+theorem rp_fine_listScalars (o : GenOpts) (E : List Int) (k : Kind) : ∀ (n : Nat) (es : List Val) (ds : List Draw),
+    Fine (listScalars o E k n es ds) ds
   | 0, es, ds => rp_fine_ok _ _
   | n+1, es, ds => by
     simp only [listScalars]
-    exact rp_fine_bind (rp_fine_genScalar _ _ _) (fun v rest _ _ => rp_fine_listScalars E k n _ rest)
+    exact rp_fine_bind (rp_fine_genScalar _ _ _ _) (fun v rest _ _ => rp_fine_listScalars o E k n _ rest)
 
 /-- the child (`setFields` one level down) is total -/
 def ChildFine (child : Nat → Val → List Draw → R (Bool × Val)) : Prop :=
@@ -153,22 +244,22 @@ theorem rp_fine_listMsgs (S : Schema) {child : Nat → Val → List Draw → R (
         | (rw [if_pos hlen]
            exact rp_fine_listMsgs S hc mi n (i+1) _ rest (by simp [List.length_take]; omega))
 
-theorem rp_fine_mapScalars (E : List Int) (kk vk : Kind) : ∀ (n : Nat) (es : List Val) (ds : List Draw),
-    Fine (mapScalars E kk vk n es ds) ds
+theorem rp_fine_mapScalars (o : GenOpts) (E : List Int) (kk vk : Kind) : ∀ (n : Nat) (es : List Val) (ds : List Draw),
+    Fine (mapScalars o E kk vk n es ds) ds
   | 0, es, ds => rp_fine_ok _ _
   | n+1, es, ds => by
     simp only [mapScalars]
-    exact rp_fine_bind (rp_fine_genScalar _ _ _) (fun k rest _ _ =>
-      rp_fine_bind (rp_fine_genScalar _ _ _) (fun v rest' _ _ => rp_fine_mapScalars E kk vk n _ rest'))
+    exact rp_fine_bind (rp_fine_genScalar _ _ _ _) (fun k rest _ _ =>
+      rp_fine_bind (rp_fine_genScalar _ _ _ _) (fun v rest' _ _ => rp_fine_mapScalars o E kk vk n _ rest'))
 
-theorem rp_fine_mapMsgs (S : Schema) (E : List Int) {child : Nat → Val → List Draw → R (Bool × Val)}
+theorem rp_fine_mapMsgs (S : Schema) (o : GenOpts) (E : List Int) {child : Nat → Val → List Draw → R (Bool × Val)}
     (hc : ChildFine child) (kk : Kind) (mi : Nat) : ∀ (n : Nat) (es : List Val) (ds : List Draw),
-    Fine (mapMsgs S E child kk mi n es ds) ds
+    Fine (mapMsgs S o E child kk mi n es ds) ds
   | 0, es, ds => rp_fine_ok _ _
   | n+1, es, ds => by
     simp only [mapMsgs]
-    exact rp_fine_bind (rp_fine_genScalar _ _ _) (fun k rest _ _ =>
-      rp_fine_bind (hc _ _ _) (fun r rest' _ _ => rp_fine_mapMsgs S E hc kk mi n _ rest'))
+    exact rp_fine_bind (rp_fine_genScalar _ _ _ _) (fun k rest _ _ =>
+      rp_fine_bind (hc _ _ _) (fun r rest' _ _ => rp_fine_mapMsgs S o E hc kk mi n _ rest'))
 
 theorem rp_fine_genField (S : Schema) (o : GenOpts) (E : List Int)
     {child : Nat → Val → List Draw → R (Bool × Val)} (hc : ChildFine child)
@@ -176,15 +267,15 @@ theorem rp_fine_genField (S : Schema) (o : GenOpts) (E : List Int)
     Fine (genField S o E child fs f j slots ds) ds := by
   unfold genField
   cases hs : f.shape <;> cases he : f.elem <;> simp only []
-  · exact rp_fine_map (rp_fine_genScalar _ _ _)
+  · exact rp_fine_map (rp_fine_genScalar _ _ _ _)
   · exact rp_fine_map (hc _ _ _)
-  · exact rp_fine_bind (rp_fine_draw _ _) (fun _ _ _ _ => rp_fine_map (rp_fine_listScalars _ _ _ _ _))
+  · exact rp_fine_bind (rp_fine_draw _ _) (fun _ _ _ _ => rp_fine_map (rp_fine_listScalars _ _ _ _ _ _))
   · exact rp_fine_bind (rp_fine_draw _ _) (fun _ _ _ _ =>
       rp_fine_map (rp_fine_listMsgs S hc _ _ 0 _ _ (by omega)))
-  · exact rp_fine_map (rp_fine_genScalar _ _ _)
+  · exact rp_fine_map (rp_fine_genScalar _ _ _ _)
   · split <;> exact rp_fine_map (hc _ _ _)
-  · exact rp_fine_bind (rp_fine_draw _ _) (fun _ _ _ _ => rp_fine_map (rp_fine_mapScalars _ _ _ _ _ _))
-  · exact rp_fine_bind (rp_fine_draw _ _) (fun _ _ _ _ => rp_fine_map (rp_fine_mapMsgs S E hc _ _ _ _ _))
+  · exact rp_fine_bind (rp_fine_draw _ _) (fun _ _ _ _ => rp_fine_map (rp_fine_mapScalars _ _ _ _ _ _ _))
+  · exact rp_fine_bind (rp_fine_draw _ _) (fun _ _ _ _ => rp_fine_map (rp_fine_mapMsgs S o E hc _ _ _ _ _))
 
 theorem rp_fine_genFields (S : Schema) (o : GenOpts) (E : List Int)
     {child : Nat → Val → List Draw → R (Bool × Val)} (hc : ChildFine child) (fs : List FieldDesc) :
